@@ -239,7 +239,13 @@ def c16_mute(ctx):
     mute_state(ctx)
 
 
-RULES = [c16_1, c16_2, c16_3, c16_4, c16_mute]
+def c16_state(ctx):
+    """Nothing is remembered between statements / files beyond the reviewed state (rules/shared.py STATE)."""
+    from rules.shared import state_discipline
+    state_discipline(ctx, ('bespokeasm.assembler.pretty_printer', 'bespokeasm.assembler.engine'))
+
+
+RULES = [c16_1, c16_2, c16_3, c16_4, c16_mute, c16_state]
 
 _IH = 'assembler/pretty_printer/intelhex.py'
 _MH = 'assembler/pretty_printer/minhex.py'
